@@ -85,6 +85,9 @@ def finite_droplet(d) -> bool:
     return True
 
 
+SHARED_LSQ: dict = {"max_nfev": 400}  # (never reset: whatever an implementation writes into it is seen by the later calls)
+
+
 def locate_stream(ck: Check, n: int, reqs, expect):
     from droplets.image_analysis import locate_droplets
 
@@ -97,7 +100,11 @@ def locate_stream(ck: Check, n: int, reqs, expect):
         opts = dict(threshold=rng.choice([0.5, 0.5, "auto", "extrema", "mean", "otsu", -1.0, 2.0]), minimal_radius=rng.choice([0, 0, 0.7, -np.inf]),
                     modes=modes, interface_width=rng.choice([None, None, 0.0, 0.8]), refine=rng.random() < 0.3)
         if opts["refine"] and rng.random() < 0.5:
-            opts["refine_args"] = rng.choice([{"vmin": None, "vmax": None}, {"adjust_values": True}, {"vmin": None, "vmax": None, "adjust_values": True}, {"tolerance": 1e-4}])
+            opts["refine_args"] = rng.choice([{"vmin": None, "vmax": None}, {"adjust_values": True}, {"vmin": None, "vmax": None, "adjust_values": True}, {"tolerance": 1e-4},
+                                              # solver settings kept by the caller in ONE dict and handed to every analysis of the run (fits with 3 .. 30 parameters):
+                                              {"least_squares_params": SHARED_LSQ}, {"vmin": None, "vmax": None, "adjust_values": True, "least_squares_params": SHARED_LSQ}])
+            if "least_squares_params" in opts["refine_args"]:
+                ck.count("shared_solver_settings")
         gname = type(grid).__name__
         case = {"grid": repr(grid), "field": kind, "options": {k: repr(v) for k, v in opts.items()}, "data": field.data.tolist() if field.data.size <= 64 else None}
         sig = {"grid": gname, "field": kind, "refine": opts["refine"], "modes_positive": modes > 0}
